@@ -15,6 +15,7 @@ import numpy
 
 from .. import core
 from ..absidx import idx_lit, idx_json, lst
+from .. import forms
 
 AGGS = ["count", "valid_count", "sum", "mean"]
 
@@ -101,7 +102,7 @@ def run(ctx):
     prod_cases, arr_cases, shape_cases = [], [], []
     meta = []
     oracle_fail = []
-    dist = {"subcubes": {}, "ndims": {}, "axes": {}}
+    dist = {"subcubes": {}, "ndims": {}, "axes": {}, "xcube_array_form": {}}
     blocks_compared = 0
     for ci in range(ncases):
         c = gen_case(ctx.rng, thorough)
@@ -129,7 +130,17 @@ def run(ctx):
             ctx.nontrivial.add(hash(key))
         cc = ccube(dims, interacting_shape=c["ishape"])
         dense = [d.to_array() if d.ndim <= 2 else a for d, a in zip(dims, c["arrs"])]
-        xc = xcube(dense, interacting_shape=c["ishape"])
+        # the array cube gets the same dense content in another FORM in a good share of the cases: another integer
+        # dtype that holds it, Fortran order / transposed store / strided view / read-only (a 3-axis dimension laid out
+        # in Fortran order is what exposes a flattening that assumes C order)
+        xdense, form_tags = [], []
+        for a in dense:
+            b, tag = forms.int_array(ctx.rng, a, p=0.45)
+            xdense.append(b)
+            form_tags.append(tag)
+            dist["xcube_array_form"][tag.split("/")[-1]] = dist["xcube_array_form"].get(tag.split("/")[-1], 0) + 1
+        c["xforms"] = form_tags
+        xc = xcube(xdense, interacting_shape=c["ishape"])
         # (a) real product of the index cube
         real = []
         for combo in cc.product():
@@ -160,7 +171,8 @@ def run(ctx):
                         if kind == "ccube":
                             sub.append(d.sliced(*hc) if hc else d)
                         else:
-                            sub.append(a[(slice(None),) + hc] if hc else a)
+                            # the reference sub-cube is built from the ORDINARY form (C-contiguous copy of the column)
+                            sub.append(numpy.ascontiguousarray(a[(slice(None),) + hc]) if hc else a)
                     subcube = (ccube if kind == "ccube" else xcube)(sub, interacting_shape=c["ishape"])
                     want = call(subcube, agg, c, c["fmt"])
                     got = block(res, j)
@@ -206,7 +218,8 @@ def describe(c):
             "fact": [[None if x != x else x for x in row] for row in numpy.atleast_2d(c["fact"]).tolist()],
             "fact_shape": list(c["fact"].shape),
             "weights": None if c["weights"] is None else [None if x != x else x for x in c["weights"].tolist()],
-            "interacting_shape": list(c["ishape"]), "ignore_missing": c["ignore"], "format": c["fmt"]}
+            "interacting_shape": list(c["ishape"]), "ignore_missing": c["ignore"], "format": c["fmt"],
+            "xcube_array_forms": c.get("xforms")}
 
 
 def replay(ctx, path):
@@ -222,7 +235,8 @@ def replay(ctx, path):
         fact = numpy.array([[float("nan") if x is None else x for x in row] for row in i["fact"]]).reshape(i["fact_shape"])
         w = None if i["weights"] is None else numpy.array([float("nan") if x is None else x for x in i["weights"]])
         c = dict(fact=fact, weights=w, ignore=i["ignore_missing"])
-        xc = xcube(arrs, interacting_shape=tuple(i["interacting_shape"]))
+        xarrs = [forms.reform(a, t) for a, t in zip(arrs, i.get("xcube_array_forms") or [""] * len(arrs))]
+        xc = xcube(xarrs, interacting_shape=tuple(i["interacting_shape"]))
         res = call(xc, f["aggregate"], c, i["format"])
         if "block" in f:
             j = tuple(f["block"])
